@@ -19,7 +19,7 @@ RULE = ('candidate header lines are placed as the 2nd line after a valid '
         'variants under LF and CRLF files. Distinct by construction; '
         'non-trivial = the line starts with "#".')
 FLOOR = {'quick': 50000, 'thorough': 500000}
-REQUIRED_REACH = ['DiffXReader._read_header']
+REQUIRED_REACH = ['reader.py:']
 REQUIRED_COUNTERS = ['oracle_accepts', 'oracle_rejects']
 ASSUMPTIONS = [
     'Python-only integer spellings (e.g. 7_7) may be reported as int or '
@@ -168,7 +168,7 @@ def options_ok(pairs, got, obs):
 def gen_lines(ctx):
     """Yield (index, line) for the deterministic enumerations."""
     i = 0
-    L = ctx.pick(4, 5)
+    L = ctx.pick(4, 6)
     for n in range(0, L + 1):
         for tup in itertools.product(ALPHABET, repeat=n):
             i += 1
@@ -236,7 +236,7 @@ def run(ctx):
     obs.case(None, nontrivial=False, n=n)
     obs.distinct_by_construction(n)
     obs.exhaustive = True
-    obs.count('tail_max_length', ctx.pick(4, 5) if ctx.index == 0 else 0)
+    obs.count('tail_max_length', ctx.pick(4, 6) if ctx.index == 0 else 0)
 
 
 def replay(case, obs):
